@@ -1,11 +1,11 @@
 package worlds
 
 import (
-	"bytes"
 	"encoding/json"
 	"errors"
 	"fmt"
 	"hash/fnv"
+	"io"
 	"net/http"
 	"net/http/httptest"
 	"net/url"
@@ -49,6 +49,8 @@ import (
 const bNS = "did:sim"
 
 type bOp struct {
+	hash, revealHash uint // algorithms the request was built under (0: the DID's)
+
 	ID       int
 	DID      *bDID
 	Type     operation.Type
@@ -80,6 +82,10 @@ type bDID struct {
 	LongResp   map[string]interface{}
 	LongForm   string
 	Dead       bool // the client has submitted a deactivate
+
+	// the multihash algorithm under which the commitment currently in force was made (a controller may move to the
+	// protocol's other algorithm with any operation; the reveal value then still uses the old one)
+	updAlg, recAlg uint
 
 	// what the create was built from (a sibling DID may be created from the same ingredients with another anchor origin)
 	initUpd, initRec *workload.Key
@@ -602,6 +608,10 @@ func (w *bWorld) genPatches(create bool) []workload.PatchDesc {
 			ids = append(ids, pool[(first+1)%len(pool)])
 		}
 
+		if kind == workload.ReplaceAll && !(create && i == 0) && w.k.Draw(4, "patch.replace.empty") == 0 {
+			ids = nil // replace with the empty document {}
+		}
+
 		out = append(out, workload.PatchDesc{Kind: kind, IDs: ids, Mark: w.nextMark()})
 	}
 
@@ -680,8 +690,11 @@ func (w *bWorld) post(req []byte) (int, []byte) {
 		return http.StatusOK, b
 	}
 
+	// over a real connection the body reaches the handler in pieces: one Read rarely returns everything
 	rr := httptest.NewRecorder()
-	w.update.Update(rr, httptest.NewRequest(http.MethodPost, "/operations", bytes.NewReader(req)))
+	hr := httptest.NewRequest(http.MethodPost, "/operations", &chunkReader{b: req, n: []int{1 << 20, 4096, 512, 7, 1}[w.k.Draw(5, "post.chunk")]})
+	hr.ContentLength = int64(len(req))
+	w.update.Update(rr, hr)
 
 	return rr.Code, rr.Body.Bytes()
 }
@@ -758,6 +771,7 @@ func (w *bWorld) clientStep(d *bDID) {
 
 	if d.Create == nil {
 		d.Hash = hash
+		d.updAlg, d.recAlg = hash, hash
 		d.Upd, d.Rec = w.newKey(d), w.newKey(d)
 
 		// one controller may hold several DIDs under one recovery key: their recovers / deactivates then reveal the same key
@@ -848,7 +862,21 @@ func (w *bWorld) clientStep(d *bDID) {
 		typ = operation.TypeRecover
 	}
 
-	spec := &workload.OpSpec{Type: typ, Suffix: d.Suffix, Hash: d.Hash}
+	// hash migration: now and then the controller builds the operation under the protocol's other algorithm (delta hash
+	// and next commitments); the reveal value keeps the algorithm of the commitment it opens
+	opHash := d.updAlg
+	if typ != operation.TypeUpdate {
+		opHash = d.recAlg
+	}
+
+	revealAlg := opHash
+
+	if k.Draw(5, "client.otherhash") == 0 {
+		opHash = simenv.SHA2_256 + simenv.SHA2_512 - opHash
+		k.Count("probe:operation-under-the-other-hash-algorithm")
+	}
+
+	spec := &workload.OpSpec{Type: typ, Suffix: d.Suffix, Hash: opHash, RevealHash: revealAlg}
 	m := &refmodel.Op{Type: refmodel.OpType(typ), Authentic: true, SuffixOK: true, Parses: true, Label: string(typ)}
 
 	// anchoring window: mostly generous (operations must normally survive queueing), sometimes tight
@@ -903,14 +931,14 @@ func (w *bWorld) clientStep(d *bDID) {
 	}
 
 	m.Patches = pd
-	m.RevealCommit = spec.SignKey.Commitment(d.Hash)
+	m.RevealCommit = spec.SignKey.Commitment(revealAlg)
 
 	if nu != nil {
-		m.NextUpdate = nu.Commitment(d.Hash)
+		m.NextUpdate = nu.Commitment(opHash)
 	}
 
 	if nr != nil {
-		m.NextRecovery = nr.Commitment(d.Hash)
+		m.NextRecovery = nr.Commitment(opHash)
 	}
 
 	req, err := workload.Build(spec)
@@ -921,6 +949,7 @@ func (w *bWorld) clientStep(d *bDID) {
 	}
 
 	op := w.newOp(d, typ, req, m)
+	op.hash, op.revealHash = opHash, revealAlg
 	w.parseBack(op, v, spec.SignKey, nil, nu, nr, pd, spec.AnchorOrigin, spec.From, spec.Until)
 
 	if spec.From != 0 || spec.Until != 0 {
@@ -943,9 +972,9 @@ func (w *bWorld) clientStep(d *bDID) {
 	// the client's own view of its keys moves on
 	switch typ {
 	case operation.TypeUpdate:
-		d.Upd = nu
+		d.Upd, d.updAlg = nu, opHash
 	case operation.TypeRecover:
-		d.Upd, d.Rec = nu, nr
+		d.Upd, d.Rec, d.updAlg, d.recAlg = nu, nr, opHash, opHash
 	default:
 		d.Dead = true
 	}
@@ -1154,6 +1183,12 @@ func (w *bWorld) submit(op *bOp) {
 			k.Count("probe:retry-refused-by-newer-version")
 		}
 
+		if !legit && w.prop == "C20" {
+			// (C20: a valid operation submitted through the document handler must end up in the resolved state; one that the
+			// node refuses for no reason never will)
+			w.fail("C20", "intake/valid-operation-refused", fmt.Sprintf("client-built %s (key type %s, hash %d) refused: %s", op.Type, d.KeyType, d.Hash, op.Err))
+		}
+
 		if !legit {
 			w.fail("C11", "intake/honest-request-refused", fmt.Sprintf("client-built %s (key type %s, hash %d) refused: %s", op.Type, d.KeyType, d.Hash, op.Err))
 		}
@@ -1256,7 +1291,11 @@ func (w *bWorld) parseBack(op *bOp, v *simenv.Version, signKey, _ *workload.Key,
 	}
 
 	d := op.DID
-	hash := d.Hash
+	hash, revealHash := d.Hash, d.Hash
+
+	if op.hash != 0 {
+		hash, revealHash = op.hash, op.revealHash
+	}
 
 	mop, err := v.Parser.ParseOperation(bNS, op.Req, true)
 	if err != nil {
@@ -1289,8 +1328,8 @@ func (w *bWorld) parseBack(op *bOp, v *simenv.Version, signKey, _ *workload.Key,
 		}
 	}
 
-	if signKey != nil && mop.RevealValue != signKey.Reveal(hash) {
-		bad("reveal-value", mop.RevealValue, signKey.Reveal(hash))
+	if signKey != nil && mop.RevealValue != signKey.Reveal(revealHash) {
+		bad("reveal-value", mop.RevealValue, signKey.Reveal(revealHash))
 	}
 
 	switch op.Type {
@@ -2607,6 +2646,32 @@ func (w *bWorld) versionCutChecks(d *bDID) {
 }
 
 func jcsOf(v interface{}) ([]byte, error) { return canonicalizer.MarshalCanonical(v) }
+
+// chunkReader hands out at most n bytes per Read.
+type chunkReader struct {
+	b []byte
+	n int
+}
+
+func (c *chunkReader) Read(p []byte) (int, error) {
+	if len(c.b) == 0 {
+		return 0, io.EOF
+	}
+
+	n := c.n
+	if n > len(p) {
+		n = len(p)
+	}
+
+	if n > len(c.b) {
+		n = len(c.b)
+	}
+
+	copy(p, c.b[:n])
+	c.b = c.b[n:]
+
+	return n, nil
+}
 
 // externalKeyShown: how a verification method of the external document carries its key ("member:value").
 func externalKeyShown(em map[string]interface{}) string {
